@@ -46,6 +46,8 @@ def lgi (s : Stack) : List (Nat × OEv × Nat) := s.offLog
 @[simp] theorem lgi_with_found_refreshLog (s : Stack) (x : TStore SvcKey) (y : List (Addr × SvcKey × Nat × Nat)) : lgi { s with found := x, refreshLog := y } = lgi s := rfl
 @[simp] theorem lgi_with_subLog (s : Stack) (x : List (Addr × Nat × List Eventgroup)) : lgi { s with subLog := x } = lgi s := rfl
 @[simp] theorem lgi_with_findLog (s : Stack) (x : List (Nat × Nat)) : lgi { s with findLog := x } = lgi s := rfl
+@[simp] theorem lgi_with_findMarks (s : Stack) (x : List (Nat × Nat)) : lgi { s with findMarks := x } = lgi s := rfl
+@[simp] theorem lgi_markFind (s : Stack) (n : Nat) : lgi (s.markFind n) = lgi s := rfl
 @[simp] theorem lgi_with_subDup (s : Stack) (x : Bool) : lgi { s with subDup := x } = lgi s := rfl
 @[simp] theorem lgi_with_subLost (s : Stack) (x : Bool) : lgi { s with subLost := x } = lgi s := rfl
 @[simp] theorem lgi_with_alive_subLost (s : Stack) (x y : Bool) : lgi { s with alive := x, subLost := y } = lgi s := rfl
